@@ -323,6 +323,10 @@ def gen_calls(ctx):
                              ("type_", "type", False, ("leaf", "none", None)), ("sub_items", "subItems", True, ("dict", [("k", ("up", 0))]))]))],
         [("a", ("unset",)), ("b", ("unset",))],
         [("d", ("dict", [("0", ("up", 1)), ("1", ("list", [("up", 1)]))]))],
+        # regression witness of the fixed finding C11-model-under-dict (/repo dd85cf5)
+        [("w", ("dict", [("m", ("model", 1, [("file", None, True, ("up", 0)), ("files", None, False, ("leaf", "none", None)),
+                                             ("type_", "type", False, ("leaf", "none", None)),
+                                             ("sub_items", "subItems", False, ("leaf", "none", None))]))]))],
     ]
     for vs in fixed:
         for hname, h in HEADERS:
